@@ -24,12 +24,19 @@ fi
 rm -f /tmp/fuzz-build-$$.log
 corpus=$(mktemp -d /dev/shm/fuzz-corpus-XXXXXX)
 art=$home/replays/$id/fuzz/; mkdir -p $art
-out=$(cargo +nightly fuzz run $target $corpus -- -runs=$runs -seed=$seed -max_len=$maxlen -len_control=0 -artifact_prefix=$art -print_final_stats=1 2>&1)
+out=$(cargo +nightly fuzz run $target $corpus -- -runs=$runs -seed=$seed -max_len=$maxlen -len_control=0 -rss_limit_mb=4096 -timeout=120 -artifact_prefix=$art -print_final_stats=1 2>&1)
 rc=$?
 rm -rf $corpus /dev/shm/fz-damage-*
 execs=$(echo "$out" | sed -n 's/^stat::number_of_executed_units: *//p' | tail -1)
 if [ $rc -ne 0 ]; then
   crash=$(ls -t $art 2>/dev/null | head -1)
+  case "$crash" in
+    oom-*|timeout-*|slow-unit-*)
+      # resource trouble is never reported as a violation (the proptest side owns hangs)
+      echo "INCONCLUSIVE: libFuzzer stopped on $crash (memory or time limit), kept at $art$crash" >&2
+      note "{\"target\":\"$target\",\"available\":true,\"runs\":${execs:-0},\"resource_limit_artifact\":\"$art$crash\"}"
+      exit 2 ;;
+  esac
   echo "VIOLATION property=$id replay=$art$crash"
   echo "  signature: $id/fuzz/$target"
   echo "$out" | grep -E "panicked|assert|ERROR" | head -5
